@@ -68,6 +68,7 @@ def well_formed(ctx, c, label):
 
 
 def run(ctx, job):
+    ctx.scripted = True
     from pacti.iocontract import IoContract, Var
     from pacti.utils.errors import IncompatibleArgsError
 
